@@ -6,7 +6,7 @@ git -C /repo worktree add --detach $wt HEAD -q >/dev/null 2>&1 || { echo "worktr
 if git -C $wt apply $patch; then
   for c in "$@"; do
     out=$(VERIF_REPO=$wt /verif/check $c --tier quick --no-evidence 2>&1); code=$?
-    echo "SEEDED $name $c exit=$code nviol=$(echo "$out" | grep -c '^VIOLATION') :: $(echo "$out" | grep '^VIOLATION' | head -1 | cut -c1-300) $(echo "$out" | grep '^INCONCLUSIVE' | head -1 | cut -c1-200)"
+    echo "SEEDED $name $c exit=$code nviol=$(echo "$out" | grep -c '^VIOLATION') :: $(echo "$out" | grep "violation key" | head -1 | cut -c1-300) $(echo "$out" | grep '^INCONCLUSIVE' | head -1 | cut -c1-200)"
   done
 else echo "patch did not apply"; fi
 git -C /repo worktree remove --force $wt
